@@ -317,6 +317,11 @@ GEN_THEOREMS = {
     "C12": ("CoreDhcp.Props.GenDispatch6", ["GEN_replyKind6_eq", "GEN_stub6_eq", "GEN_replyKind6_spec", "GEN_replyKind6_table", "GEN_replyKind6_all", "GEN_pinIf6_eq", "GEN_woob6_eq", "GEN_dispatch6_eq"]),
     "C14": ("CoreDhcp.Props.GenServerID6", ["GEN_sidDecision_spec", "GEN_sidDecision_table", "GEN_sidDecision_all", "GEN_sidDecision_model", "GEN_sidDecision_rel6"]),
     "C19": ("CoreDhcp.Props.GenNetmask", ["GEN_checkValidNetmask_eq", "GEN_checkValidNetmask_masks"]),
+    # bitmap_ipv4.go, regenerated as a whole (unit alloc4): the IPv4 halves of C04-C07 rest on it
+    "C04": ("CoreDhcp.Props.GenAlloc4", ["GEN_a4_allocate_eq", "GEN_a4_free_eq"]),
+    "C05": ("CoreDhcp.Props.GenAlloc4", ["GEN_a4_allocate_eq'", "GEN_a4_new_eq", "GEN_a4_toIP_eq", "GEN_a4_toIP_ofNat", "GEN_a4_toIP_panic_iff"]),
+    "C06": ("CoreDhcp.Props.GenAlloc4", ["GEN_a4_free_eq", "GEN_a4_toOffset_eq"]),
+    "C07": ("CoreDhcp.Props.GenAlloc4", ["GEN_a4_allocate_eq", "GEN_a4_toOffset_eq"]),
 }
 for _p, (_m, _t) in GEN_THEOREMS.items():
     PROPS[_p]["theorems"] = PROPS[_p]["theorems"] + _t
